@@ -11,7 +11,9 @@ PID = 'C11'
 
 
 def units(tier, seed):
-    return _mk.order(_mk.lattice_level_units(tier, seed))
+    # the 66-wide skeletons are left to the thorough tier here (the persistence code is not width dependent; the
+    # kernels are covered at width 66 by the inductive units)
+    return _mk.order(_mk.lattice_level_units(tier, seed, wide=(tier != 'quick')))
 
 
 unit_kernel = _mk.kernel_unit_for(PID)
